@@ -233,6 +233,38 @@ func genC09(g *G) {
 			g.emit("bip39.seed", lang, hx([]byte(strings.Join(m[:len(m)-1], " "))), "_", "_")
 		}
 	}
+	// structural boundaries of the key stretching: the sentence is the HMAC key (keys LONGER than the 128-byte SHA-512
+	// block are hashed first, keys of exactly 128 bytes are not; 111/112 is where the SHA-512 padding spills into a second
+	// block) and "mnemonic"+passphrase is the salt. Sentences of exactly these byte lengths are found by sampling
+	// entropies of every size; passphrases are cut to measure. (Seeded change C09-d: "pre-hash keys >= 128 bytes".)
+	sentLens := []int{127, 128, 129}
+	if g.thorough {
+		sentLens = []int{103, 104, 111, 112, 119, 120, 127, 128, 129, 130, 239, 240, 255, 256, 257}
+	}
+	for _, lang := range langs {
+		setLang(lang)
+		for _, want := range sentLens {
+			found := 0
+			for try := 0; try < 6000 && found < 2; try++ {
+				m, _ := bip39.EntropyToMnemonic(g.r.bytes(16 + 4*g.r.intn(13)))
+				if len(m.String()) != want {
+					continue
+				}
+				found++
+				for _, p := range []string{"", "TREZOR"} {
+					g.emit("bip39.seed", lang, hx([]byte(m.String())), hx([]byte(p)), hx([]byte(p)))
+				}
+			}
+		}
+	}
+	{
+		setLang("english")
+		m, _ := bip39.EntropyToMnemonic(g.r.bytes(16))
+		for _, saltLen := range []int{111, 112, 119, 120, 127, 128, 129, 240, 256} {
+			p := strings.Repeat("p", saltLen-len("mnemonic"))
+			g.emit("bip39.seed", "english", hx([]byte(m.String())), hx([]byte(p)), hx([]byte(p)))
+		}
+	}
 	// KNOWN FINDING F11: golang.org/x/text's normalizer produces Stream-Safe Text — it inserts U+034F (COMBINING GRAPHEME
 	// JOINER) after 30 consecutive non-starters — so for a passphrase or sentence with more than 30 combining marks in a
 	// row the repository does NOT use the NFKD form. The inputs below are in NFKD already (one base letter followed by
